@@ -16,7 +16,7 @@ use schema_gen::TYPE_NAMES;
 pub const NAME: &str = "schema";
 
 // ---- strict well-formedness of one CBOR item (RFC 8949 syntax; no typed knowledge) ----
-fn head(b: &[u8], p: usize) -> Option<(u8, u8, u64, usize)> {
+pub fn head(b: &[u8], p: usize) -> Option<(u8, u8, u64, usize)> {
     let ib = *b.get(p)?;
     let (m, ai) = (ib >> 5, ib & 31);
     let n = match ai { 0..=23 => 0, 24 => 1, 25 => 2, 26 => 4, 27 => 8, 31 => 0, _ => return None };
@@ -98,9 +98,14 @@ fn rewrite(b: &[u8], p: usize, out: &mut Vec<u8>, r: &mut Rng) -> Option<usize> 
             if ai == 31 { let e = item_end(b, p, 0)?; out.extend(&b[p..e]); return Some(e); }
             let n = if m == 4 { v } else { v * 2 };
             let indef = m == 5 && r.chance(1, 3);
-            if indef { out.push(0xbf); } else { widen(out, m, v, r); }
+            // a map may repeat its last entry (the typed decoders differ in what a duplicate key means:
+            // last assignment wins for derived structs and BTreeMap, both entries stay in KeyValuePairs)
+            let dup = m == 5 && v >= 1 && v < u64::MAX && r.chance(1, 6);
+            if indef { out.push(0xbf); } else { widen(out, m, if dup { v + 1 } else { v }, r); }
             let mut q = q;
-            for _ in 0..n { q = rewrite(b, q, out, r)?; }
+            let mut last = out.len();
+            for i in 0..n { if m == 5 && i % 2 == 0 { last = out.len(); } q = rewrite(b, q, out, r)?; }
+            if dup { let rep = out[last..].to_vec(); out.extend(rep); }
             if indef { out.push(0xff); }
             Some(q)
         }
@@ -145,9 +150,13 @@ macro_rules! op_dec { ($T:ty, $bytes:expr) => {{
 }} }
 
 pub fn generate(g: &mut Gen) {
-    let n = TYPE_NAMES.len();
+    // PV_SCHEMA_ONLY=a,b restricts the generator to these types (failing-input search after a codec changed)
+    let only: Vec<String> = std::env::var("PV_SCHEMA_ONLY").ok().map(|s| s.split(',').map(|x| x.trim().to_string()).filter(|x| !x.is_empty()).collect()).unwrap_or_default();
+    let names: Vec<&str> = TYPE_NAMES.iter().copied().filter(|t| only.is_empty() || only.iter().any(|o| o == t)).collect();
+    let n = names.len();
+    if n == 0 { return; }
     for i in 0..g.cases {
-        let name = TYPE_NAMES[i % n];
+        let name = names[i % n];
         let seed = g.rng.next() >> 1;
         let mut r = Rng::new(seed);
         let Some((text, bytes)): Option<(String, Option<Vec<u8>>)> = schema_dispatch!(name, op_gen, &mut r) else { continue };
